@@ -73,6 +73,21 @@ CHECKS = {
    text="Decides: all 781 keys non-zero and pairwise distinct with the two no-piece rows zero (exactly the condition for 'any single component change changes the hash', given the read set); the from-scratch hashes read placement/side/rights/e.p. and never the clocks; all 12 piece-colour combinations hashed with matching constants; e.p. key by file; make and zobrist_xor agree on castling squares, e.p. victim square and which move fields they read; the search threads hash ^ delta of the move it made. Does not decide incremental == recomputed for every move.",
    note="Trusted: rustc const evaluation + MIR, the extractor.",
    ref="4/C06"),
+ "C05": dict(
+   technique="static analysis: path enumeration of the loop-free check test on MIR, table classification from the evaluated constants, operand-level inspection of the colour arguments, path classification of the evaluator's terminal branch",
+   text="Decides the completeness and pairing of the reverse attack lookup (every attacker kind, right table, right piece set, attacking player's sets, king square and full occupancy; the pawn table of the defended colour), the colour arguments of is_valid / is_current_in_check / is_in_check / _is_in_check_by_bits, and that mate scores need check and no legal move while other move-less positions are draws. Does not decide exactness over positions (relies on C04 for the tables).",
+   note="Trusted: rustc MIR + const evaluation, the extractor, the path evaluator, the geometry oracle for classifying tables. Assumes both kings exist.",
+   ref="4/C05"),
+ "C16": dict(
+   technique="static analysis: who-may-call over resolved callees for stdout, decoded format_args templates and string constants at every transmitter call site, control-dependence comparison of the PV/bestmove assignments",
+   text="Decides that only the binary's print function writes stdout (as the transmitter's consumer, plus one banner call), that every line kind the console transmitter can emit starts with a UCI engine-to-GUI keyword with the right message keyword per trait method, that info keys are UCI keys, unique, `string` last, scores cp/mate with lowerbound/upperbound, 0000 only for None, and that bestmove, reported PV and stored PV are assigned under the same condition. Does not decide monotone depth/nodes/time nor PV legality.",
+   note="Trusted: rustc MIR, the extractor's constant decoding, the template decoder for this nightly's format_args lowering (undecodable templates fail closed as anchor lost).",
+   ref="4/C16"),
+ "C18": dict(
+   technique="static analysis: field-access confinement over all function bodies, control-dependence / dominance / operand inspection of put, straight-line evaluation of clear/get/len/load_factor and of the delegating wrapper",
+   text="Decides the structural invariants that keep the insertion-order list and the map in step: fields confined to HashTable's methods; put inserts (key, value), queues the key iff it was new, checks len > capacity after every insert and evicts exactly the popped list head; clear empties both; get/len/load_factor read the map; the TranspositionTable wrapper delegates 1:1. Does not decide map semantics over operation histories.",
+   note="Trusted: rustc MIR, the extractor; std HashMap/VecDeque behave as documented.",
+   ref="4/C18"),
 }
 NOT_APPLICABLE = {
  "C17": "PGN tokenisation under arbitrary read fragmentation is decided by runtime bytes; the only structural clause in reach (buffer read only behind ensure_buffer) is too weak to stand for the property (DESIGN.md section 1).",
